@@ -29,6 +29,7 @@ ASSUMPTIONS = [
 ]
 MIN_NONTRIVIAL_FRACTION = 0.2
 RULE += " Added after the seeded rounds: " + 'A second call on the same loop / swarm / nucleus must respect the same bound; generators and workers raise one of 16 exception types.'
+RULE += " The provider's text replies are generated (blank, whitespace-only, error-looking, literal)."
 EXHAUSTIVE_NOTE = {"quick": "heal: 5 limits x scripts of length 1..3 over 6 behaviours (1290); swarm: 5x5 limits x worker scripts length 1..2 over 4 behaviours (500); tools: 5 limits x round scripts length 1..2 over 5 round kinds x auto (300)",
                    "thorough": "same finite sub-domains, complete"}
 
